@@ -303,7 +303,23 @@ def load_known():
     return out
 
 
-def finish(ctx, pid, P, known_bits=None, rule="", assumptions=None, extra=None, level="proof"):
+def explain_case(ctx, stage_name, gi, header, expr):
+    """Evaluate `expr` (a Gallina term over `c`, the failing case) in coqc and return what it prints."""
+    try:
+        st = [s for s in ctx.stages if s.name == stage_name][0]
+        shard_size = st.meta.get("shard_size", 400)
+        k, i = gi // shard_size, gi % shard_size
+        body = open(os.path.join(ctx.casedir, "%s_%d.body" % (stage_name, k))).read()
+        v = os.path.join(ctx.casedir, "%s_%d_explain.v" % (stage_name, k))
+        open(v, "w").write(header + "\n" + body + "\nDefinition EX := Eval vm_compute in (match nth_error cases %d with Some c => Some (%s) | None => None end).\nPrint EX.\n" % (i, expr))
+        rc, out, _ = run(["coqc", "-Q", COQ, "AV", os.path.basename(v)], cwd=ctx.casedir, timeout=600)
+        m = re.search(r"^EX\s*=\s*(.*?)\n\s*:\s", out, flags=re.S | re.M)
+        return re.sub(r"\s+", " ", m.group(1))[:3000] if m else out[-1500:]
+    except Exception as ex:  # explanation is best effort
+        return "explanation failed: %s" % ex
+
+
+def finish(ctx, pid, P, known_bits=None, rule="", assumptions=None, extra=None, level="proof", explain=None):
     """Decide the verdict, write evidence and replay files, print VIOLATION / KNOWN-FINDING lines.
 
     known_bits: {bit: finding id}; a failing case whose code has bit 2 clear but a known bit set is an
@@ -353,8 +369,13 @@ def finish(ctx, pid, P, known_bits=None, rule="", assumptions=None, extra=None, 
         violations.sort(key=lambda v: len(json.dumps(v[4], default=str)))
         v = violations[0]
         st = [s for s in ctx.stages if s.name == v[1]][0]
+        expl = None
+        if explain and v[1].replace("search", "") in explain:
+            hdr, expr = explain[v[1].replace("search", "")]
+            gi = [g for (ix, c, g) in st.failing if ix == v[2]][0]
+            expl = explain_case(ctx, v[1], gi, hdr, expr)
         rp = write_replay("%s-%d" % (v[1], v[2]), dict(kind="failing-input", stage=v[1], index=v[2], code=v[3], case=v[4],
-                          reason=v[5], n=st.meta.get("evaluations"), others=[(x[1], x[2], x[3]) for x in violations[1:20]]))
+                          reason=v[5], explanation=expl, n=st.meta.get("evaluations"), others=[(x[1], x[2], x[3]) for x in violations[1:20]]))
         lines.append("VIOLATION property=%s replay=%s" % (pid, rp))
         nviol = len(violations)
     elif not P["ok"] or mismatches or infra:
